@@ -641,6 +641,12 @@ func ruleSqrtExactLastDigit(w *World, r *RuleResult) {
 			cmps = append(cmps, c)
 		}
 	}
+	// or through an exact integer power comparison cmp(v, 2, operand copy)
+	for _, pc := range w.exactPowerCmps(f, 2) {
+		if copies[pc.x] {
+			cmps = append(cmps, pc.call)
+		}
+	}
 	// one comparison steers an increment of a coefficient, one steers the Inexact flag
 	steersIncr, steersInexact := false, false
 	inexact := w.conditionConsts()["Inexact"]
@@ -652,7 +658,15 @@ func ruleSqrtExactLastDigit(w *World, r *RuleResult) {
 			}
 			for _, sc := range b.Succs {
 				for _, in := range sc.Instrs {
-					if ac, isCall := in.(*ssa.Call); isCall && w.calleeName(ac) == "(*BigInt).Add" {
+					ac, isCall := in.(*ssa.Call)
+					if !isCall {
+						continue
+					}
+					switch w.calleeName(ac) {
+					case "(*BigInt).Add":
+						steersIncr = true
+					case "(*ErrDecimal).Add", "(*ErrDecimal).Sub", "(*Decimal).Set":
+						// the candidate is moved to its neighbour: v = v ± ulp, v = next
 						steersIncr = true
 					}
 				}
@@ -674,6 +688,21 @@ func ruleSqrtExactLastDigit(w *World, r *RuleResult) {
 							// through a boolean: inexact := sq.Cmp(&f) != 0 ; if inexact {...}
 							if cmpBo, isC := g.Cond.(*ssa.BinOp); isC && w.condMentions(cmpBo, c) {
 								steersInexact = true
+							}
+							// through a boolean set under the comparison: if sq.Cmp(&f) != 0 { inexact = true … } ; if inexact {...}
+							if phi, isPhi := g.Cond.(*ssa.Phi); isPhi {
+								for ei, e := range phi.Edges {
+									k, isK := e.(*ssa.Const)
+									if !isK || constBoolTrue(k) != g.Val {
+										continue
+									}
+									pred := phi.Block().Preds[ei]
+									for _, pg := range append(edgeGuards(pred, phi.Block()), guardsAt(pred)...) {
+										if w.condMentions(pg.Cond, c) {
+											steersInexact = true
+										}
+									}
+								}
 							}
 						}
 						for _, pb := range b.Preds {
@@ -716,7 +745,32 @@ func ruleSqrtExactLastDigit(w *World, r *RuleResult) {
 			}
 		}
 	}
+	// the exact location must not be skipped for some results: a comparison site guarded by the context's
+	// exponent limits means that results outside the normal range (subnormal ones) are rounded from the
+	// iterate after all, twice
+	var limited []string
+	for _, c := range cmps {
+		for _, g := range guardsAt(c.Block()) {
+			for l := range w.exprOf(f, g.Cond).leaves() {
+				if strings.HasSuffix(l, ".MinExponent") || strings.HasSuffix(l, ".MaxExponent") {
+					limited = append(limited, w.instrPos(c)+" under "+short(w.exprOf(f, g.Cond).String(), 80))
+				}
+			}
+		}
+	}
+	// … and must not itself be subject to the exponent limits: the square of a Precision-digit candidate,
+	// formed by a Decimal multiplication, has twice its exponent
+	var viaMul []string
+	for _, c := range cmps {
+		if w.calleeName(c) == "(*Decimal).Cmp" {
+			viaMul = append(viaMul, w.instrPos(c))
+		}
+	}
 	switch {
+	case len(cmps) >= 2 && steersIncr && steersInexact && len(limited) > 0:
+		r.bad(key, w.pos(f.Pos()), "the exact decision of the last digit is made only under a test of the context's exponent range ("+strings.Join(uniqStrings(limited), "; ")+"): a result that is subnormal for the context is rounded from the iterate, twice (Sqrt(0.00999999) at Precision 7, MinExponent -1 = 0.1000000; Sqrt(0.9999999998) at Precision 12, MinExponent 0 without Inexact)")
+	case len(cmps) >= 2 && steersIncr && steersInexact && len(viaMul) > 0:
+		r.bad(key, w.pos(f.Pos()), "the candidate's square is formed by a Decimal multiplication ("+strings.Join(uniqStrings(viaMul), ", ")+"): its exponent is twice the candidate's and leaves the package range from Precision 50000 on, so Sqrt(4) fails with 'exponent out of range' there; compare on the integer coefficients")
 	case len(cmps) >= 2 && steersIncr && steersInexact:
 		r.ok(key, w.pos(f.Pos()), fmt.Sprintf("%d exact comparisons of the operand copy with a square formed under BaseContext: one chooses between the truncated candidate and its successor, one sets Inexact", len(cmps)), true)
 	default:
